@@ -49,7 +49,7 @@ func chihayaBinary() (string, error) {
 	return binPath, binErr
 }
 
-func binConfig(scenario string, httpPort, udpPort int) string {
+func binConfig(scenario string, httpPort, udpPort, metricsPort int) string {
 	pre := ""
 	store := "name: memory\n    config:\n      shard_count: 2\n      gc_interval: 3m\n      peer_lifetime: 31m\n      prometheus_reporting_interval: 1s"
 	switch scenario {
@@ -68,7 +68,11 @@ func binConfig(scenario string, httpPort, udpPort int) string {
 	case "good-hooks":
 		pre = "  prehooks:\n  - name: client approval\n    options:\n      blacklist: [\"UT1234\"]\n  - name: interval variation\n    options:\n      modify_response_probability: 0.5\n      max_increase_delta: 60\n      modify_min_interval: true\n"
 	}
-	return fmt.Sprintf("chihaya:\n  announce_interval: 30m\n  min_announce_interval: 15m\n  metrics_addr: \"\"\n  http:\n    addr: \"127.0.0.1:%d\"\n    announce_routes: [\"/announce\"]\n    scrape_routes: [\"/scrape\"]\n    read_timeout: 5s\n    write_timeout: 5s\n  udp:\n    addr: \"127.0.0.1:%d\"\n    private_key: \"verif\"\n  storage:\n    %s\n%s", httpPort, udpPort, store, pre)
+	metrics := ""
+	if scenario == "good-metrics" {
+		metrics = fmt.Sprintf("127.0.0.1:%d", metricsPort)
+	}
+	return fmt.Sprintf("chihaya:\n  announce_interval: 30m\n  min_announce_interval: 15m\n  metrics_addr: \"" + metrics + "\"\n  http:\n    addr: \"127.0.0.1:%d\"\n    announce_routes: [\"/announce\"]\n    scrape_routes: [\"/scrape\"]\n    read_timeout: 5s\n    write_timeout: 5s\n  udp:\n    addr: \"127.0.0.1:%d\"\n    private_key: \"verif\"\n  storage:\n    %s\n%s", httpPort, udpPort, store, pre)
 }
 
 func lifeBinary(c *Ctx, scenario string) {
@@ -91,7 +95,8 @@ func lifeBinary(c *Ctx, scenario string) {
 		dir, _ := os.MkdirTemp("", "verif-cfg-")
 		defer os.RemoveAll(dir)
 		cfgPath := filepath.Join(dir, "chihaya.yaml")
-		_ = os.WriteFile(cfgPath, []byte(binConfig(scenario, hp, up)), 0o600)
+		mp := freePort()
+		_ = os.WriteFile(cfgPath, []byte(binConfig(scenario, hp, up, mp)), 0o600)
 		var logs bytes.Buffer
 		cmd := exec.Command(bin, "--config", cfgPath, "--nocolors")
 		cmd.Stdout, cmd.Stderr = &logs, &logs
@@ -118,6 +123,23 @@ func lifeBinary(c *Ctx, scenario string) {
 			files, _ := v["files"].(map[string]interface{})
 			f, _ := files["aaaaaaaaaaaaaaaaaaaa"].(map[string]interface{})
 			return fmt.Sprintf("%v/%v", f["complete"], f["incomplete"])
+		}
+		// the metrics server of the executable (pkg/metrics): answers with the storage gauges while the tracker runs
+		metricsUp := func() string {
+			if scenario != "good-metrics" {
+				return "-"
+			}
+			for i := 0; i < 50; i++ {
+				resp, err := cl.Get(fmt.Sprintf("http://127.0.0.1:%d/metrics", mp))
+				if err == nil {
+					var buf bytes.Buffer
+					_, _ = buf.ReadFrom(resp.Body)
+					resp.Body.Close()
+					return b01(resp.StatusCode == 200 && strings.Contains(buf.String(), "chihaya_storage_leechers_count"))
+				}
+				time.Sleep(40 * time.Millisecond)
+			}
+			return "0"
 		}
 		waitUp := func(d time.Duration) bool {
 			dl := time.Now().Add(d)
@@ -156,6 +178,7 @@ func lifeBinary(c *Ctx, scenario string) {
 			resp.Body.Close()
 		}
 		before := scrape()
+		mBefore := metricsUp()
 		// reload: the store is kept
 		_ = cmd.Process.Signal(syscall.SIGUSR1)
 		time.Sleep(300 * time.Millisecond)
@@ -164,6 +187,7 @@ func lifeBinary(c *Ctx, scenario string) {
 			return "before=" + before + " not-serving-after-reload " + lastLine(logs.String())
 		}
 		after := scrape()
+		mAfter := metricsUp()
 		// … and the tracker is steady afterwards: over the next second it is up at every probe and does not restart again
 		restartsBefore := strings.Count(logs.String(), "reloading; received reload signal")
 		downs := 0
@@ -191,7 +215,15 @@ func lifeBinary(c *Ctx, scenario string) {
 			conn.Close()
 			closed = false
 		}
-		return fmt.Sprintf("served=1 before=%s after_reload=%s steady_after_reload=%s reloads=%d exit=%s port_closed=%s", before, after, b01(steady), restarts, code, b01(closed))
+		mClosed := "-"
+		if scenario == "good-metrics" {
+			mClosed = "1"
+			if conn, err := net.DialTimeout("tcp", fmt.Sprintf("127.0.0.1:%d", mp), 200*time.Millisecond); err == nil {
+				conn.Close()
+				mClosed = "0"
+			}
+		}
+		return fmt.Sprintf("served=1 before=%s after_reload=%s steady_after_reload=%s reloads=%d exit=%s port_closed=%s metrics=%s/%s/%s", before, after, b01(steady), restarts, code, b01(closed), mBefore, mAfter, mClosed)
 	}()
 	c.Emit(op, obs)
 }
